@@ -729,6 +729,40 @@ func c05CheckGroup(c *oracleCtx, ops []customOp, src string, lenient bool) {
 				biText = append(biText, t)
 			}
 		}
+		// at any level: a line break in front of a registered binary operator is as insignificant as in front of a built-in
+		// one — the text with every registered binary operator first on its line groups like the one-line text
+		{
+			var lines []string
+			n := 0
+			for i, t := range toks {
+				if _, isReg := L.regI[t]; isReg && binAt[i] {
+					lines = append(lines, "\n"+t)
+					n++
+				} else {
+					lines = append(lines, t)
+				}
+			}
+			if n > 0 {
+				lsrc := strings.Join(lines, " ")
+				for _, smart := range []bool{false, true} {
+					pb.WithSmartSemicolon(smart)
+					one, many := c05Parse(pb, src), c05Parse(pb, lsrc)
+					if (len(one.errs) > 0) != (len(many.errs) > 0) || one.shape != many.shape || one.skel != many.skel {
+						in2 := map[string]any{}
+						for k, v := range input {
+							in2[k] = v
+						}
+						in2["line-start-text"], in2["smart"] = lsrc, smart
+						c.violation("", fmt.Sprintf("layout: on one line the text groups as %s %s (%s); with the registered operators first on their lines (smart semicolons %v) as %s %s (%s)",
+							one.skel, one.shape, oaErrText(one.errs), smart, many.skel, many.shape, oaErrText(many.errs)), in2)
+						pb.WithSmartSemicolon(false)
+						return
+					}
+					c.bump("one-line-vs-line-start")
+				}
+				pb.WithSmartSemicolon(false)
+			}
+		}
 		if breaks == 0 {
 			return
 		}
